@@ -1112,8 +1112,12 @@ def proximal_convex_conj_l1(space, lam=1, g=None):
 
             # diff = x - sig * g
             if g is not None:
-                diff = self.domain.element()
-                diff.lincomb(1, x, -self.sigma, g)
+                if np.isscalar(self.sigma):
+                    diff = self.domain.element()
+                    diff.lincomb(1, x, -self.sigma, g)
+                else:
+                    # Pointwise step size
+                    diff = x - self.sigma * g
             else:
                 if x is out:
                     # Handle aliased `x` and `out`
